@@ -1,9 +1,10 @@
 package c15
 
 import (
-	"strings"
+	"fmt"
 	"runtime"
 	"runtime/debug"
+	"strings"
 	"sync"
 	"testing"
 
@@ -46,8 +47,8 @@ func openF0() []StateOp {
 // The specific inputs. Without a listener the first descriptor opened by the prefix is 5.
 func knownInputs() map[string]*Case {
 	return map[string]*Case{
-		idPollWrap: {Engine: "interpreter", Pages: 1, Fn: "poll_oneoff", Args: []uint64{0x100, 0x1000, 1 << 28, 0x10}},
-		idRenumberSelf: {Engine: "interpreter", Pages: 1, State: openF0(), Fn: "fd_renumber", Args: []uint64{5, 5}},
+		idPollWrap:      {Engine: "interpreter", Pages: 1, Fn: "poll_oneoff", Args: []uint64{0x100, 0x1000, 1 << 28, 0x10}},
+		idRenumberSelf:  {Engine: "interpreter", Pages: 1, State: openF0(), Fn: "fd_renumber", Args: []uint64{5, 5}},
 		idSetTimesNilFS: {Engine: "interpreter", Pages: 1, Fn: "fd_filestat_set_times", Args: []uint64{0, 0, 0, 0}},
 		idRecvPeekNoIovec: {Engine: "interpreter", Pages: 1, Sock: true, State: []StateOp{{Op: "accept"}},
 			Mem: []Piece{{Off: 280, Hex: "0001000010000000"}}, Fn: "sock_recv", Args: []uint64{6, 280, 0, 1, 296, 312}},
@@ -70,6 +71,9 @@ func knownClasses(t *testing.T) {
 			r, err := execute(c)
 			runtime.GC()
 			debug.FreeOSMemory()
+			if err == nil && r.Harness != "" {
+				err = fmt.Errorf("%s", r.Harness)
+			}
 			if err != nil {
 				evid.Incomplete("known-finding input %s could not run: %v", id, err)
 				continue
